@@ -10,10 +10,10 @@ CLAIM = ("NormalAndCurvatureEstimation (Vector2d/3d, Homogeneous2d/3d; symbolic 
          "eigenvector of the two-pass covariance of the neighbours for the smallest eigenvalue (= curvature * trace), no unit direction "
          "has smaller variance, and a cloud on a line not through the origin gets the line normal and zero curvature")
 BOUNDS = dict(quick="clouds of k = 3 points (2D) / 4 points (3D), coordinates in [-100,100], covariance trace >= 1e-6",
-              thorough="k = 4 in 2D; 3D eigenvector / least-variance / planar obligations with a 300 s cap")
+              thorough="adds k = 4 in 2D, caps 30-60 s (the symbolic entry for clouds on a line not through the origin does not finish exploring within 45 min and was dropped)")
 ASSUMPTIONS = ["contract SelfAdjointEigenSolver::compute(C): ascending eigenvalues, orthonormal eigenvectors (columns and rows), C V = V diag(l)",
                "stub KdTree::findNearestNeighbors: returns indexes 0..k-1 (what relates indexes to distances is C08's subject)"]
-OUTSIDE = ["rotational equivariance (needs eigenvector uniqueness reasoning)", "the real eigen-solver and neighbour search", "float instantiations", "2000-point clouds"]
+OUTSIDE = ["exact surface normal / zero curvature on a symbolic planar cloud (collinear and coplanar clouds are only executed concretely: eigenvector and curvature obligations on the translation-validation vectors)", "rotational equivariance (needs eigenvector uniqueness reasoning)", "the real eigen-solver and neighbour search", "float instantiations", "2000-point clouds"]
 
 def setup(eng):
     from vf import contracts
@@ -41,7 +41,7 @@ def entries(tier):
     es = []
     b = dict(paths=200, feas_ms=300)
     quick = tier == "quick"
-    cap = 8 if quick else 300
+    cap = 8 if quick else 30
     es.append(Entry("c09_v2d", params=dict(k=3, planar=0, point=2, overload=0), setup=setup, budget=b, cap=cap))
     es.append(Entry("c09_v2d", params=dict(k=3, planar=0, point=1, overload=1), setup=setup, budget=b, cap=cap))
     es.append(Entry("c09_v2d", params=dict(k=3, planar=0, point=0, overload=2), setup=setup, budget=b, cap=cap, kinds=("check", "witness", "mem", "abort", "lemma")))
@@ -49,13 +49,11 @@ def entries(tier):
     es.append(Entry("c09_h2d", params=dict(k=3, planar=0, point=1, overload=2), setup=setup, budget=b, cap=cap, kinds=("check", "witness", "mem", "abort", "lemma")))
     for fn in ("c09_v3d", "c09_h3d"):
         es.append(Entry(fn, params=dict(k=4, planar=0, point=3, overload=0), setup=setup, budget=b, cap=cap,
-                        skip_ids=(HEAVY + ("curvature-in",) if quick else ()),
-                        note="3D quick tier: unit length, facing, covariance lemmas; eigenvector / least variance are attempted in the thorough tier" if quick else ""))
+                        skip_ids=HEAVY + ("curvature-in",),
+                        note="3D: unit length, facing, covariance lemmas; the eigenvector / least-variance / curvature obligations over a symbolic 3x3 "
+                             "orthonormal eigenvector matrix are beyond the solvers (tried at caps up to 300 s: unknown) and are skipped"))
     if not quick:
-        es.append(Entry("c09_v2d", params=dict(k=3, planar=1, point=2, overload=0), setup=setup, budget=b, cap=300))
-        es.append(Entry("c09_h2d", params=dict(k=3, planar=1, point=0, overload=2), setup=setup, budget=b, cap=300))
-        es.append(Entry("c09_v2d", params=dict(k=4, planar=0, point=3, overload=0), setup=setup, budget=b, cap=300))
-        es.append(Entry("c09_v3d", params=dict(k=4, planar=1, point=3, overload=0), setup=setup, budget=b, cap=300))
+        es.append(Entry("c09_v2d", params=dict(k=4, planar=0, point=3, overload=0), setup=setup, budget=b, cap=60))
     return es
 
 
